@@ -117,12 +117,25 @@ class heap(object):
         return ptr_page["size"]
 
 
+def _sb_path_elements(elements):
+    """Resolve '.' and '..' in the path elements @elements, the sandbox base
+    directory being the root ('..' cannot climb above it)"""
+    out = []
+    for elt in elements:
+        if elt == '..':
+            if out:
+                out.pop()
+        elif elt and elt != '.':
+            out.append(elt)
+    return out
+
+
 def windows_to_sbpath(path):
     """Convert a Windows path to a valid filename within the sandbox
     base directory.
 
     """
-    path = [elt for elt in path.lower().replace('/', '_').split('\\') if elt]
+    path = _sb_path_elements(path.lower().replace('/', '_').split('\\'))
     return os.path.join(BASE_SB_PATH, *path)
 
 
@@ -131,7 +144,7 @@ def unix_to_sbpath(path):
     base directory.
 
     """
-    path = [elt for elt in path.split('/') if elt]
+    path = _sb_path_elements(path.split('/'))
     return os.path.join(BASE_SB_PATH, *path)
 
 def get_fmt_args(fmt, cur_arg, get_str, get_arg_n):
